@@ -8,7 +8,7 @@ def check(tier, seed):
     return G.generic_check(PID, "proof", tier, seed, coq=True,
         rule="obligations: theorems of coq/properties/C14.v over the small-step model Lifecycle.v for every schedule (race_free, no_deadlock, one_result_per_start, no_foreign_stop, infinite_not_before_stop, start_while_running_rejected, ...) + C14_sites_recognised (the synchronisation statements the model transcribes are re-recognised in /repo); correspondence: call sequences issued by one controller goroutine on a real Search with a recording driver, the observed event trace must be a behaviour of the model (Lifecycle.accepts: breadth-first search over all schedules inside Coq; c14-cases); monitors: storms of lifecycle calls (start in 5 modes, stop, ponderhit, newgame, clearhash, resizehash, isready, issearching, wait) on one Search object from a controller goroutine with delays of 0..7 ms (inside the timer's 5 ms polling window): every call returns under a 15 s watchdog, results == accepted starts, start while an infinite/ponder search runs is rejected promptly, infinite/ponder searches deliver nothing before their stop/ponderhit, stale-timer scenario; the same run under a -race build: every reported data race is a violation (classified by the two access sites in /repo); a case = one storm",
         streams=[dict(name="lifecycle_model_vs_engine", kind="coqcases", shards=lambda t: 2 if t == "quick" else 16,
-                      args=lambda t, s, sh, path: ["c14-cases", 40 if t == "quick" else 150, s * 1000 + 600 + sh, path], coq_timeout=3000),
+                      args=lambda t, s, sh, path: ["c14-cases", 40 if t == "quick" else 150, s * 1000 + 600 + sh, path], coq_timeout=3000, ok_marker="M = ([],"),
                  dict(name='lifecycle_storms', kind="monitor", shards=lambda t: 2 if t == "quick" else 8,
                       args=lambda t, s, sh, path: ['c14-monitor', 40 if t == "quick" else 1500, s * 1000 + sh]),
                  dict(name='lifecycle_storms_race', kind="monitor", shards=lambda t: 2 if t == "quick" else 8,
